@@ -286,6 +286,79 @@ def make_value_setter():
     return 'value_setter', cell
 
 
+INNER_NEW = ['5', '0.25', '100', '0']
+FOLLOW = [None, ('*', 2, 0), ('+', 1, 2), ('-', D('0.5'), 2), ('/', 4, 0), 'neg']
+
+
+def valued_nodes(a):
+    """Every node of the expression tree that has a value (the expression itself, add/mul/unary/paren nodes, number tokens)."""
+    return [(p_, x) for p_, x in docenv.walk(a) if hasattr(type(x), 'value')]
+
+
+def make_inner_edit(kind, fo, twin=False):
+    """read every value; edit a number token INSIDE the expression (value or raw_text) or replace the content of a parenthesis;
+    read every value again: each node's value must be the evaluation of the text it now prints (nothing may be remembered from
+    before the edit), also through a following operator."""
+    ns = len(SHAPES)
+
+    def cell(sa: int, ka: int, ti: int, vi: int) -> None:
+        assert 0 <= sa < ns and 0 <= ka <= 3 and 0 <= ti <= 5 and 0 <= vi < len(INNER_NEW)
+        sa, ka, ti, vi = pick(sa, 0, ns - 1), pick(ka, 0, 3), pick(ti, 0, 5), pick(vi, 0, len(INNER_NEW) - 1)
+        with NoTracing():
+            a, fa = make_operand(ka, SHAPES[sa], '97')
+            for _, x in valued_nodes(a):
+                x.value                      # first reading of every value (populates whatever is memoised)
+            if kind == 2:
+                parens = [x for _, x in docenv.walk(a) if isinstance(x, models.NumberParenExpr)]
+                if ti >= len(parens):
+                    return
+                donor = docenv.PARSER.parse('(%s + 6)' % INNER_NEW[vi], models.NumberExpr)
+                inner = [x for _, x in docenv.walk(donor) if isinstance(x, models.NumberParenExpr)][0].raw_inner_expr
+                import copy
+                parens[ti].raw_inner_expr = copy.deepcopy(inner)
+                what = 'shape %r (attachment %d): content of parenthesis %d replaced by %r' % (SHAPES[sa], ka, ti, text_of(inner))
+            else:
+                nums = [x for _, x in docenv.walk(a) if isinstance(x, models.Number)]
+                if ti >= len(nums):
+                    return
+                if kind == 0:
+                    nums[ti].value = D(INNER_NEW[vi])
+                else:
+                    nums[ti].raw_text = INNER_NEW[vi]
+                what = 'shape %r (attachment %d): number token %d %s = %s' % (SHAPES[sa], ka, ti, 'value' if kind == 0 else 'raw_text', INNER_NEW[vi])
+            if twin:
+                raise Fail('twin reached the assertion point')
+            zero_div = False
+            for p_, x in valued_nodes(a):
+                try:
+                    want = evaluate(text_of(x))
+                except (decimal.DivisionByZero, decimal.InvalidOperation):
+                    zero_div = True
+                    continue
+                got = x.value
+                check(got == want, what, '- node', p_, 'prints', R(text_of(x)), 'which evaluates to', want, 'but its value reads', got)
+            if zero_div:
+                return
+            f = FOLLOW[fo]
+            va = evaluate(text_of(a))
+            if f == 'neg':
+                r = -a
+                check(r.value == -va and evaluate(text_of(r)) == -va, what, 'then unary minus gives', r.value, R(text_of(r)), 'expected', -va)
+            elif f is not None:
+                op, b, md = f
+                if op == '/' and b == 0:
+                    return
+                r = one_op(md, op, a, b)
+                want = arith(op, va, D(b) if not isinstance(b, D) else b)
+                check(r.value == want, what, 'then', op, b, '(mode %d) has value' % md, r.value, 'expected', want, R(text_of(r)))
+                check(evaluate(text_of(r)) == want, what, 'then', op, b, 'prints', R(text_of(r)), 'which evaluates to', evaluate(text_of(r)), 'expected', want)
+            if fa:
+                docenv.tree_invariant(fa, what=what)
+                docenv.reparse_equivalent(fa, what=what)
+
+    return 'inner_edit_%s_f%d%s' % (('value', 'rawtext', 'paren')[kind], fo, '_twin' if twin else ''), cell
+
+
 CELLS = {}
 
 
@@ -305,6 +378,14 @@ for _op1 in range(4):
         _reg(make_chain(_op1, _op2), {'C13': T}, 3000, 'chain', '(a %s b) %s c: 6 shapes x {free, attached} per operand, 2 scalars, plain/in-place per step' % (BIN[_op1], BIN[_op2]))
 _reg(make_unary(), {'C13': Q}, 600, 'unary', '15 shapes x 4 attachments x {+,-} x {once, twice}', cost=50)
 _reg(make_value_setter(), {'C13': Q}, 600, 'value', '15 shapes x 4 attachments x 7 decimal values', cost=50)
+for _kind in range(3):
+    for _fo in range(len(FOLLOW)):
+        _quick = (_kind, _fo) in ((0, 0), (0, 2), (1, 1), (2, 0), (2, 5))
+        _reg(make_inner_edit(_kind, _fo), {'C13': Q if _quick else T, 'C06': Q if (_kind, _fo) in ((0, 0), (2, 0)) else T}, 900, 'inner-edit',
+             '17 shapes x 4 attachments x %s x 4 new numbers, then %s; every value of every node read before and after the edit'
+             % (('number token (<= 6).value = v', 'number token (<= 6).raw_text = s', 'content of a parenthesis replaced')[_kind],
+                'no further operation' if FOLLOW[_fo] is None else 'operator %r' % (FOLLOW[_fo],)), cost=100)
+_reg(make_inner_edit(0, 0, twin=True), {'C13': Q}, 120, 'inner-edit', 'vacuity twin', twin=True, cost=1)
 _reg(make_binop(2, 0, twin=True), {'C13': Q}, 120, 'binop', 'vacuity twin', twin=True, cost=1)
 _reg(make_unary(twin=True), {'C13': Q}, 120, 'unary', 'vacuity twin', twin=True, cost=1)
 
